@@ -50,6 +50,20 @@ type Disk struct {
 	ROWrite int            // write/sync/truncate calls issued by a read-only handle
 
 	AfterEvent func(i int) // observer (e.g. C06 monitor)
+
+	PageSize       int  // to recognise meta page writes
+	MetaWritten    bool // a write to page 0/1 happened since the disk was armed
+	FiredAfterMeta bool
+	Veto           func(op string, afterMeta bool) bool
+	ArmedCalls     []string // ops seen while armed (probe pass)
+}
+
+// Arm starts (or stops) the fault window.
+func (d *Disk) Arm(on bool) {
+	d.Armed = on
+	if on {
+		d.MetaWritten = false
+	}
 }
 
 func NewDisk(path string) *Disk { return &Disk{Path: path, Counts: map[string]int{}, FiredAt: -1} }
@@ -63,6 +77,9 @@ func (d *Disk) Marker(m string, txid int) int {
 }
 
 func (d *Disk) shouldFail(op string) (bool, string) {
+	if d.Armed && d.Plan == nil {
+		d.ArmedCalls = append(d.ArmedCalls, op)
+	}
 	if !d.Armed || d.Plan == nil || d.Fired != "" {
 		return false, ""
 	}
@@ -72,6 +89,10 @@ func (d *Disk) shouldFail(op string) (bool, string) {
 	k := d.Calls
 	d.Calls++
 	if k == d.Plan.K {
+		if d.Veto != nil && d.Veto(op, d.MetaWritten) {
+			return false, ""
+		}
+		d.FiredAfterMeta = d.MetaWritten
 		return true, d.Plan.Kind
 	}
 	return false, ""
@@ -92,6 +113,9 @@ func (d *Disk) Write(db *bolt.DB, b []byte, off int64, real func([]byte, int64) 
 		switch kind {
 		case "short":
 			n := len(b) / 2
+			if d.PageSize > 0 && off < int64(2*d.PageSize) {
+				n = 40 // tear the meta record itself
+			}
 			if n > 0 {
 				if _, err := real(b[:n], off); err != nil {
 					return 0, err
@@ -113,6 +137,9 @@ func (d *Disk) Write(db *bolt.DB, b []byte, off int64, real func([]byte, int64) 
 			d.Log = append(d.Log, IOEvent{Kind: "write", Off: off, Err: "eio"})
 			return 0, ErrInjectedEIO
 		}
+	}
+	if d.Armed && d.PageSize > 0 && off < int64(2*d.PageSize) {
+		d.MetaWritten = true
 	}
 	ev := IOEvent{Kind: "write", Off: off, Arg: int64(len(b))}
 	if d.Record {
